@@ -42,7 +42,7 @@ def dot(a, b):
     return ssum(x * y for x, y in zip(a, b))
 
 
-def h_milp(s, rows, c, U, integers, minimize, heuristics=True, warm=None, lns=0, solution_limit=1, b_fixed=None, max_nodes=500):
+def h_milp(s, rows, c, U, integers, minimize, heuristics=True, warm=None, lns=0, solution_limit=1, b_fixed=None, max_nodes=500, lp_budget=False):
     Status = importlib.import_module("solvor.types").Status
     mod = importlib.import_module("solvor.milp")
     smod = importlib.import_module("solvor.simplex")
@@ -60,6 +60,8 @@ def h_milp(s, rows, c, U, integers, minimize, heuristics=True, warm=None, lns=0,
     s.stub(mod, float=sym_float)
     s.patch(mod, Random=SymRandom(s))
     kw = {"heuristics": heuristics, "lns_iterations": lns, "solution_limit": solution_limit, "max_nodes": max_nodes}
+    if lp_budget:
+        kw["max_iter"] = s.int("lp_max_iter", 0, 8)  # simplex pivot budget per node LP: a node that runs out of it proves nothing
     if warm is not None:
         if warm == "symbolic":
             # warm-start VALUES are symbolic Reals (the length is structural): feasibility of the incumbent is decided by the solver
@@ -108,7 +110,7 @@ def h_milp(s, rows, c, U, integers, minimize, heuristics=True, warm=None, lns=0,
         return
     if st == Status.MAX_ITER:
         # "the node limit stopped the search before anything was found": only with a tight limit, and then no solution is presented
-        s.check(max_nodes < 500 and res.solution is None, "milp.max_iter_only_when_the_node_limit_is_tight_and_without_solution", detail=max_nodes)
+        s.check((max_nodes < 500 or lp_budget) and res.solution is None, "milp.max_iter_only_when_a_limit_is_tight_and_without_solution", detail=max_nodes)
         s.goal("milp.node_limit_hit")
         return
     s.check(st in (Status.OPTIMAL, Status.FEASIBLE) and res.solution is not None and len(res.solution) == n, "milp.status_known", detail=str(st))
@@ -249,6 +251,11 @@ def items(tier, rng):
         cell.pop("b_fixed")
         out.append({"name": "milp_node_limit", "harness": "h_milp", "max_paths": 300, "spread": rng.randrange(1 << 30),
                     "params": dict(cell, max_nodes=1 + k % 3, heuristics=(k % 2 == 0))})
+    for k, cell in enumerate(branching_cells(random.Random(rng.randrange(1 << 30)), 10 if q else 100)):
+        cell = dict(cell)
+        cell.pop("b_fixed")
+        out.append({"name": "milp_lp_budget", "harness": "h_milp", "max_paths": 300, "spread": rng.randrange(1 << 30),
+                    "params": dict(cell, lp_budget=True, heuristics=(k % 2 == 0))})
     # symbolic warm start on concrete cells that branch: acceptance of the incumbent and everything after it, for ALL warm vectors
     for cell in branching_cells(random.Random(rng.randrange(1 << 30)), 24 if q else 240):
         out.append({"name": "milp_warm_sym_branching", "harness": "h_milp", "max_paths": 400, "spread": rng.randrange(1 << 30),
